@@ -11,7 +11,7 @@ for lg in logs:
         if m:
             results.setdefault((m.group(1), m.group(2)), {})[m.group(3)] = int(m.group(4))
 verify = {}
-for f in glob.glob('/tmp/verify-C*.log')+glob.glob('/tmp/verify2-C*.log')+glob.glob('/tmp/verify3-C*.log')+glob.glob('/tmp/verify4-C*.log')+glob.glob('/tmp/verify5-C*.log'):
+for f in glob.glob('/tmp/verify-C*.log')+glob.glob('/tmp/verify2-C*.log')+glob.glob('/tmp/verify3-C*.log')+glob.glob('/tmp/verify4-C*.log')+glob.glob('/tmp/verify5-C*.log')+glob.glob('/tmp/verify6-C*.log'):
     for line in open(f):
         m = re.match(r"(C\d+)/(\d+): tests-with-patch: (\d+) passed (\d+) failed; demo exit with patch: (\d+); demo exit without: (\d+)", line)
         if m:
@@ -58,6 +58,13 @@ for (pid, k), v in sorted(verify.items()):
     }
     json.dump(out, open(f'{dst}/meta.json', 'w'), indent=1)
     rows.append((pid, k, meta.get('summary', ''), old))
+# RESULTS.md always lists every stored seed (the scratch logs of earlier rounds are gone)
+def _key(d):
+    m = re.match(r'.*/(C\d+)-(\d+)/meta.json', d); return (m.group(1), m.group(2))
+rows = []
+for d in sorted(glob.glob('/verif/seeded/C*-*/meta.json'), key=lambda d: (_key(d)[0], _key(d)[1])):
+    m = json.load(open(d)); pid, k = _key(d)
+    rows.append((pid, k, m.get('breaks') or '', m.get('checks_run', {})))
 with open('/verif/seeded/RESULTS.md', 'w') as f:
     f.write('# Seeded changes and which checks catch them\n\n')
     f.write('Every change compiles and passes the 67 unit + 4 doc tests; its demonstration fails with it and passes without it (re-verified).\n')
